@@ -107,6 +107,8 @@ def _minmax(real, merge, args, kw):
         return real(items)
     if not items:
         raise ValueError('arg is an empty sequence')
+    if all(isinstance(x, (S.SR, int, float)) for x in items):
+        return S.sym_extreme_n(items, merge is S.sym_max)
     r = items[0]
     for x in items[1:]:
         r = merge(r, x)
